@@ -130,7 +130,7 @@ class OnDiskSuite(Suite):
         return {
             "ret": ret,
             "count": str(obj.elements_added),
-            "bits": bytes(obj.bloom[: obj.bloom_length]).hex(),
+            "bits": bytes(obj.bloom).hex(),
             "geom": f"{obj.number_bits},{obj.number_hashes},{obj.bloom_length},{obj.export_size()}",
             "est": str(obj.estimated_elements),
             "fpr32": str(f32_bits(obj.false_positive_rate)),
